@@ -24,7 +24,7 @@ def specApply (s : SpecSt) : EOp → SpecSt
   | .ins r ts => specPut s r (ts.foldr insertNat (specGet s r))
   | .del r ts => specPut s r ((specGet s r).filter (fun t => t ∉ ts))
   | .dropRel r => specPut s r []
-  | .flushAll _ => s
+  | .flushAll _ _ => s
   | .compactAll _ => s
 
 def hasDup : List Nat → Bool
